@@ -102,8 +102,11 @@ impl SparqlValue {
             (Number(n1), Number(n2)) => Some(n1 == n2),
             (String(s1, None), String(s2, None)) => Some(s1 == s2),
             (String(s1, Some(t1)), String(s2, Some(t2))) => Some(t1 == t2 && s1 == s2),
-            (Boolean(b1), Boolean(b2)) => Some(b1 == b2),
-            (DateTime(d1), DateTime(d2)) => d1.partial_cmp(d2).map(|o| o == Ordering::Equal),
+            // NB: ill-formed literals (None) have no value to compare
+            (Boolean(Some(b1)), Boolean(Some(b2))) => Some(b1 == b2),
+            (DateTime(Some(d1)), DateTime(Some(d2))) => {
+                d1.partial_cmp(d2).map(|o| o == Ordering::Equal)
+            }
             _ => None,
         }
     }
